@@ -109,14 +109,14 @@ type arep struct {
 	Tr    string `json:"tr"`  // "none" | "nts_resp" (something follows the header)
 	Src   aep    `json:"src"` // underlay source of the reply
 	Dst   aep    `json:"dst"` // the socket it arrived at
-	Sc    asc    `json:"sc"`
+	Sc    *asc   `json:"sc,omitempty"` // SCION only
 	Echo  bool   `json:"echo"`   // origin timestamp = request's transmit timestamp
 	RawOK bool   `json:"raw_ok"` // SCION: path bytes == slayers Reverse() of the request's path
 }
 
-// record layout consumed by ListenerTrace.tla
+// record layouts consumed by ListenerTrace.tla
 type rec struct {
-	K     string `json:"k"` // "case" | "pair"
+	K     string `json:"k"` // "case"
 	ID    int    `json:"id"`
 	Rep   int    `json:"rep"`
 	Srv   string `json:"srv"`
@@ -127,7 +127,7 @@ type rec struct {
 	Pk    string `json:"pk"`
 	Src   aep    `json:"src"`
 	Dst   aep    `json:"dst"`
-	Sc    asc    `json:"sc"`
+	Sc    *asc   `json:"sc,omitempty"` // SCION only
 	Exp   int    `json:"exp"`
 	Drop  string `json:"drop"`
 	N     int    `json:"n"`
@@ -135,17 +135,105 @@ type rec struct {
 	Other int    `json:"other"` // undecodable / non-UDP datagrams that came back
 	Sn    int    `json:"sn"`    // sentinel answered
 	Tries int    `json:"tries"`
-	// pair records: packet counters of both servers after one forged datagram
-	ARecv int `json:"arecv"`
-	BRecv int `json:"brecv"`
-	ASrv  int `json:"asrv"`
-	BSrv  int `json:"bsrv"`
+}
+
+// packet counters of both servers after one forged datagram
+type prec struct {
+	K     string `json:"k"` // "pair"
+	ID    int    `json:"id"`
+	Srv   string `json:"srv"`
+	Tp    string `json:"tp"`
+	B0    int    `json:"b0"`
+	Len   int    `json:"len"`
+	Tr    string `json:"tr"`
+	Pk    string `json:"pk"`
+	Src   aep    `json:"src"`
+	Dst   aep    `json:"dst"`
+	Exp   int    `json:"exp"`
+	Drop  string `json:"drop"`
+	ARecv int    `json:"arecv"`
+	BRecv int    `json:"brecv"`
+	ASrv  int    `json:"asrv"`
+	BSrv  int    `json:"bsrv"`
 }
 
 var emptyPath = apath{Kind: "empty", Segs: []aseg{}}
-var noSc = asc{"-", "-", "-", "-", "-", "-", emptyPath}
 
 // ------------------------------------------------------------------- servers
+
+// countHandler attributes the listeners' own log lines to the stages of
+// Listener.tla's pipeline (DropStage) and counts them.
+type countHandler struct {
+	mu sync.Mutex
+	m  map[string]int
+}
+
+var stageOfMsg = map[string]string{
+	"failed to decode packet":           "scion",
+	"failed to decode packet payload":   "ntp.DecodePacket",
+	"failed to get cookie":              "FirstCookie",
+	"failed to decode cookie":           "EncryptedServerCookie.Decode",
+	"failed to get key":                 "provider.Get",
+	"failed to decrypt cookie":          "EncryptedServerCookie.Decrypt",
+	"failed to process NTS packet":      "nts.ProcessRequest",
+	"failed to validate packet payload": "ntp.ValidateRequest",
+	"received request":                  "none",
+}
+
+func (h *countHandler) Enabled(context.Context, slog.Level) bool { return true }
+func (h *countHandler) WithAttrs([]slog.Attr) slog.Handler       { return h }
+func (h *countHandler) WithGroup(string) slog.Handler            { return h }
+func (h *countHandler) Handle(_ context.Context, r slog.Record) error {
+	st, ok := stageOfMsg[r.Message]
+	if r.Message == "failed to decode NTS packet" {
+		st, ok = "nts.DecodePacket:?", true
+		r.Attrs(func(a slog.Attr) bool {
+			if e, isErr := a.Value.Any().(error); a.Key == "error" && isErr {
+				switch e.Error() {
+				case "packet does not contain a unique identifier":
+					st = "nts.DecodePacket:errNoUniqueID"
+				case "packet does not contain an authenticator":
+					st = "nts.DecodePacket:errNoAuthenticator"
+				}
+			}
+			return true
+		})
+	}
+	if !ok {
+		st = "log:" + r.Message
+	}
+	h.mu.Lock()
+	h.m[st]++
+	h.mu.Unlock()
+	return nil
+}
+
+func (h *countHandler) snapshot() map[string]int {
+	h.mu.Lock()
+	defer h.mu.Unlock()
+	r := map[string]int{}
+	for k, v := range h.m {
+		r[k] = v
+	}
+	return r
+}
+
+// what Listener.tla predicts for the datagrams sent so far (per attempt)
+var predicted = &countHandler{m: map[string]int{}}
+
+func predict(stage string) {
+	predicted.mu.Lock()
+	predicted.m[stage]++
+	predicted.mu.Unlock()
+}
+
+// stage record: how often the listeners logged a stage vs. the prediction
+type srec struct {
+	K         string `json:"k"` // "stage"
+	Stage     string `json:"stage"`
+	Logged    int    `json:"logged"`
+	Predicted int    `json:"predicted"`
+}
 
 type srv struct {
 	name      string
@@ -155,6 +243,7 @@ type srv struct {
 	ia        addr.IA
 	prov      *ntske.Provider
 	reg       *prometheus.Registry
+	logs      *countHandler
 }
 
 var (
@@ -189,7 +278,8 @@ func startServer(t testing.TB, name string, ip net.IP, ia string) *srv {
 	for s.scionPort == s.ntpPort {
 		s.scionPort = freePort(t, ip)
 	}
-	log := slog.New(slog.DiscardHandler)
+	s.logs = &countHandler{m: map[string]int{}}
+	log := slog.New(s.logs)
 	ctx := context.Background()
 	server.StartIPServer(ctx, log, &net.UDPAddr{IP: ip, Port: s.ntpPort}, 0, s.prov)
 	server.StartSCIONServer(ctx, log, "", &net.UDPAddr{IP: ip, Port: s.scionPort}, 0, s.prov)
@@ -556,21 +646,32 @@ func decodeSCION(b []byte, myPort, srvPort int) scionReply {
 
 const (
 	maxTries     = 3
-	sentinelWait = 1200 * time.Millisecond
+	sentinelWait = 2 * time.Second
 )
 
 func runCase(id, rep int, c *tcase, rng *rand.Rand) *rec {
 	s := srvs[c.To]
 	r := &rec{K: "case", ID: id, Rep: rep, Srv: s.name, Tp: c.Tp, B0: c.B0, Len: c.Len, Tr: c.Tr, Pk: c.Pk,
-		Src: aep{"C", "eph"}, Dst: s.ep(c.Tp), Sc: noSc, Exp: c.Exp, Drop: c.Drop, Out: []arep{}}
+		Src: aep{"C", "eph"}, Dst: s.ep(c.Tp), Exp: c.Exp, Drop: c.Drop, Out: []arep{}}
 	for try := 1; try <= maxTries; try++ {
 		r.Tries = try
 		r.Out, r.N, r.Other, r.Sn = []arep{}, 0, 0, 0
-		conn, err := net.ListenUDP("udp4", &net.UDPAddr{IP: hostC})
-		if err != nil {
-			panic(err)
+		// a fresh source port; it must differ from the listeners' port numbers,
+		// otherwise the port abstraction (eph / ntp / sntp) has no exact inverse
+		var conn *net.UDPConn
+		var myPort int
+		for {
+			var err error
+			conn, err = net.ListenUDP("udp4", &net.UDPAddr{IP: hostC})
+			if err != nil {
+				panic(err)
+			}
+			myPort = conn.LocalAddr().(*net.UDPAddr).Port
+			if myPort != s.ntpPort && myPort != s.scionPort && myPort != 30041 {
+				break
+			}
+			conn.Close()
 		}
-		myPort := conn.LocalAddr().(*net.UDPAddr).Port
 		dst := s.udpAddr(c.Tp)
 		payload, tx := buildPayload(c, s, rng)
 		sent, mark := sentinel()
@@ -595,7 +696,7 @@ func runCase(id, rep int, c *tcase, rng *rand.Rand) *rec {
 			}
 			ps, pts := buildPath(c.Path, rng)
 			swire, _ = buildSCION(iaC, s.ia, hostC, s.ip, myPort, s.scionPort, ps, pts, sent)
-			r.Sc = asc{"iaC", "C", "eph", "ia" + s.name, s.name, "sntp", c.Path}
+			r.Sc = &asc{"iaC", "C", "eph", "ia" + s.name, s.name, "sntp", c.Path}
 		}
 		if _, err := conn.WriteToUDP(wire, dst); err != nil {
 			panic(err)
@@ -603,6 +704,8 @@ func runCase(id, rep int, c *tcase, rng *rand.Rand) *rec {
 		if _, err := conn.WriteToUDP(swire, dst); err != nil {
 			panic(err)
 		}
+		predict(c.Drop)
+		predict("none") // the sentinel
 		conn.SetReadDeadline(time.Now().Add(sentinelWait))
 		buf := make([]byte, 16384)
 		for r.Sn == 0 && r.N < 16 {
@@ -611,7 +714,7 @@ func runCase(id, rep int, c *tcase, rng *rand.Rand) *rec {
 				break // deadline
 			}
 			pl := buf[:n]
-			o := arep{Sc: noSc, RawOK: true, Dst: aep{"C", "eph"}, Src: aep{"?", "?"}}
+			o := arep{RawOK: true, Dst: aep{"C", "eph"}, Src: aep{"?", "?"}}
 			if from.IP.Equal(s.ip) && from.Port == dst.Port {
 				o.Src = s.ep(c.Tp)
 			}
@@ -622,7 +725,7 @@ func runCase(id, rep int, c *tcase, rng *rand.Rand) *rec {
 					continue
 				}
 				pl = d.payload
-				o.Sc = d.sc
+				o.Sc = &d.sc
 				o.RawOK = bytes.Equal(d.pathRaw, wantPath)
 			}
 			if len(pl) >= 48 && bytes.Equal(pl[24:32], mark) {
@@ -643,13 +746,23 @@ func runCase(id, rep int, c *tcase, rng *rand.Rand) *rec {
 			r.Out = append(r.Out, o)
 			r.N++
 		}
-		conn.Close()
 		if r.Sn == 1 {
+			conn.Close() // everything sent to this socket has been read
 			break
 		}
+		// the attempt timed out: late datagrams may still be on their way to this
+		// port, so it must not be handed to another case's socket; keep it bound
+		graveMu.Lock()
+		graveyard = append(graveyard, conn)
+		graveMu.Unlock()
 	}
 	return r
 }
+
+var (
+	graveMu   sync.Mutex
+	graveyard []*net.UDPConn
+)
 
 // ------------------------------------------------------------- pair (A <-> B)
 
@@ -686,16 +799,15 @@ func (c counts) sub(d counts) counts {
 	return counts{c.arecv - d.arecv, c.brecv - d.brecv, c.asrv - d.asrv, c.bsrv - d.bsrv}
 }
 
-func runPair(id int, c *tcase, rng *rand.Rand) (*rec, error) {
+func runPair(id int, c *tcase, rng *rand.Rand) (*prec, error) {
 	from, to := srvs[c.From], srvs[c.To]
-	r := &rec{K: "pair", ID: id, Srv: to.name, Tp: c.Tp, B0: c.B0, Len: c.Len, Tr: c.Tr, Pk: c.Pk,
-		Src: from.ep(c.Tp), Dst: to.ep(c.Tp), Sc: noSc, Exp: c.Exp, Drop: c.Drop, Out: []arep{}, Sn: 1, Tries: 1}
+	r := &prec{K: "pair", ID: id, Srv: to.name, Tp: c.Tp, B0: c.B0, Len: c.Len, Tr: c.Tr, Pk: c.Pk,
+		Src: from.ep(c.Tp), Dst: to.ep(c.Tp), Exp: c.Exp, Drop: c.Drop}
 	payload, _ := buildPayload(c, to, rng)
 	wire := payload
 	if c.Tp == "scion" {
 		p, pt := buildPath(c.Path, rng)
 		wire, _ = buildSCION(from.ia, to.ia, from.ip, to.ip, from.scionPort, to.scionPort, p, pt, payload)
-		r.Sc = asc{"ia" + from.name, from.name, "sntp", "ia" + to.name, to.name, "sntp", c.Path}
 	}
 	before := snapshot(c.Tp)
 	if err := sendForged(from.udpAddr(c.Tp), to.udpAddr(c.Tp), wire); err != nil {
@@ -716,7 +828,15 @@ func runPair(id int, c *tcase, rng *rand.Rand) (*rec, error) {
 			}
 			continue
 		}
-		if cur != before && time.Since(lastChange) > grace {
+		// quiet for `grace`, and either the state Listener.tla predicts has been
+		// reached or a scheduling delay can no longer explain its absence
+		d := cur.sub(before)
+		tr, ts, or := d.arecv, d.asrv, d.brecv
+		if c.To == "B" {
+			tr, ts, or = d.brecv, d.bsrv, d.arecv
+		}
+		reached := tr >= 1 && (c.Exp == 0 || (ts >= 1 && or >= 1))
+		if cur != before && time.Since(lastChange) > grace && (reached || time.Since(lastChange) > 250*time.Millisecond) {
 			break
 		}
 	}
@@ -791,6 +911,27 @@ func TestC09(t *testing.T) {
 		}(w)
 	}
 	wg.Wait()
+
+	// per-stage totals of the case phase (exact only if no attempt timed out:
+	// otherwise it is unknown what the listener did with the lost datagrams)
+	if lost.Load() == 0 && len(graveyard) == 0 {
+		time.Sleep(20 * time.Millisecond) // log lines of the last iterations
+		logged, pred := srvs["A"].logs.snapshot(), predicted.snapshot()
+		keys := map[string]bool{}
+		for k := range logged {
+			keys[k] = true
+		}
+		for k := range pred {
+			keys[k] = true
+		}
+		for k := range keys {
+			if len(k) > 4 && k[:4] == "log:" {
+				continue // not a stage of the pipeline (timestamping diagnostics etc.)
+			}
+			out.Emit(&srec{K: "stage", Stage: k, Logged: logged[k], Predicted: pred[k]})
+			pre++
+		}
+	}
 
 	npair, bad := 0, 0
 	rng := vio.Rand()
